@@ -107,6 +107,7 @@ func genC13(t *rapid.T) c13Case {
 
 func runC13(t failer, c c13Case) {
 	ev.Eval()
+	journal("C13", c)
 	c.Cfg.Restore()
 	fail := func(sig, format string, args ...interface{}) {
 		violation(t, "C13", "admission", "C13:"+sig, c, format, args...)
